@@ -203,9 +203,9 @@ def collect():
                 continue
             if k in feed:
                 j, part = feed[k]
-                if j < last_slot:
-                    raise ValueError(f"{c.__name__}: operands are not laid out in declared order")
-                last_slot = j
+                # operands laid out in another order than declared are NOT rejected here: the groups
+                # are emitted per slot and the kernel obligation `cmd_layouts_canonical` fails
+                last_slot = max(last_slot, j)
                 groups[j].append((leaf, part))
             else:
                 # an unfed leaf inside the bytes of an operand struct (Register.padding) belongs to that
